@@ -31,7 +31,7 @@ fn obs_fp(o: &MultiEraOutput) -> Fp {
         MultiEraOutput::Byron(x) => minicbor::to_vec(&x.address).unwrap(),
         _ => vec![],
     };
-    (addr, o.lovelace_amount())
+    (addr, o.value().coin())
 }
 
 struct Observed {
@@ -275,10 +275,15 @@ fn emit_tx(out: &mut Ndjson, st: &mut Stats, src: &str, era: Era, era_name: &str
     match MultiEraTx::decode_for_era(era, bytes) {
         Ok(tx) => match observe(&tx, proj.outputs.len()) {
             Ok(o) => {
-                out.ev(tx_event(src, era_name, flag, valid, &proj, &o));
                 st.events += 1;
+                let mut e = tx_event(src, era_name, flag, valid, &proj, &o);
+                e["seq"] = json!(st.events);
+                out.ev(e);
             }
-            Err(p) => out.ev(json!({"ev": "panic", "src": src, "flag": flag, "panic": p})),
+            Err(p) => {
+                st.events += 1;
+                out.ev(json!({"ev": "panic", "seq": st.events, "src": src, "flag": flag, "panic": p}))
+            }
         },
         Err(e) => {
             st.skipped += 1;
